@@ -377,7 +377,13 @@ def rule_closed_forms(repo: Repo, rep: Report) -> None:
     # --- evaluate: power accumulation with field addition / XOR
     fi = repo.func(ALG, "BinaryPolynomial.evaluate")
     wl = [s for s in stmts_of(fi.body) if isinstance(s, ast.While)]
-    rep.floor("evaluate loops", len(wl), 2)
+    est_, ed_ = evaluate_tabulated(fi)
+    if est_ in (OK, VIOLATION):
+        # a pure function of a word and a field element: tabulated with the checker's own field model (supersedes the shape rule)
+        rep.add("KERNEL", fi, "BinaryPolynomial.evaluate tabulated over GF(4), GF(8), GF(16) and at the integers 0 and 1", est_, ed_, node=fi.node)
+        wl = []
+    else:
+        rep.floor("evaluate loops", len(wl), 2)
     for w in wl:
         for x in stmts_of(w.body):
             if isinstance(x, (ast.Assign, ast.AugAssign)):
@@ -635,6 +641,48 @@ def gcd_tabulated(fi: FuncInfo):
         if got.value != want:
             return VIOLATION, f"gcd({bin(a)}, {bin(b)}) is returned as {bin(got.value)}; the greatest common divisor in GF(2)[x] is {bin(want)} (the returned polynomial is not a combination s*a + t*b of the operands / does not carry their common factor)"
     return OK, f"equals the Euclidean gcd (own arithmetic) on {len(pairs)} operand pairs, common powers of x and equal operands included"
+
+
+def evaluate_tabulated(fi: FuncInfo):
+    """Run BinaryPolynomial.evaluate (polynomial and field elements modelled by gf2.BP / gf2.FieldElem) for the polynomials
+    0 .. 63 and three longer ones at every element of GF(4), GF(8), GF(16) and at the integers 0 and 1; the value must be
+    the sum of x^i over the set coefficients (computed with the checker's field arithmetic) - at 0 the constant
+    coefficient, at 1 the parity of the number of terms."""
+    from ..frag import FragRaise, FragReturn, run_fragment
+
+    polys = list(range(64)) + [(1 << 15) | 1, 0b1000011, (1 << 9) | 0b10110]
+    count = 0
+    for m, mod in ((2, 0b111), (3, 0b1011), (4, 0b10011)):
+        field = gf2.FieldModel(m, mod)
+        xs = [gf2.FieldElem(field, v) for v in range(1 << m)] + [0, 1]
+        for pv in polys:
+            for x in xs:
+                try:
+                    run_fragment(fi.body, {"self": gf2.BP(pv), "x": x}, {}, max_steps=40000, ctors={"BinaryPolynomial": gf2.BP})
+                    return UNDECIDED, "no value returned"
+                except FragReturn as r:
+                    got = r.value
+                except FragRaise:
+                    return VIOLATION, f"evaluate of {pv:#b} at {x!r} raises"
+                except (Unfoldable, TypeError, IndexError, ZeroDivisionError, ArithmeticError) as exc:
+                    return UNDECIDED, f"not evaluable ({exc})"
+                if isinstance(x, gf2.FieldElem):
+                    acc = 0
+                    for i in range(pv.bit_length()):
+                        if (pv >> i) & 1:
+                            acc ^= 1 if i == 0 else (0 if x.value == 0 else (x ** i).value)
+                    if not isinstance(got, gf2.FieldElem):
+                        return UNDECIDED, f"value {got!r} is not a field element"
+                    if got.value != acc:
+                        return VIOLATION, f"GF(2^{m}): the polynomial {pv:#b} evaluated at the element {x.value:#b} gives {got.value:#b}; the sum of x^i over its set coefficients is {acc:#b} (roots of generator and minimal polynomials are tested with this method)"
+                else:
+                    want = (pv & 1) if x == 0 else bin(pv).count("1") % 2
+                    if isinstance(got, bool) or not isinstance(got, int):
+                        return UNDECIDED, f"value {got!r} is not an integer"
+                    if got != want:
+                        return VIOLATION, f"the polynomial {pv:#b} evaluated at the integer {x} gives {got}; {'its constant coefficient' if x == 0 else 'the parity of its number of terms'} is {want}"
+                count += 1
+    return OK, f"equals the sum of x^i over the set coefficients on {count} (polynomial, point) pairs: every element of GF(4), GF(8), GF(16), and the integers 0, 1"
 
 
 def lcm_tabulated(fi: FuncInfo):
